@@ -77,7 +77,7 @@ Fixpoint unpack_fuel (fuel : nat) (v : N) : list N :=
   | O => []
   | S f => if v =? 0 then [] else ((v - 1) mod B62) :: unpack_fuel f ((v - 1) / B62)
   end.
-Definition unpack (v : N) : list N := unpack_fuel (N.size_nat v) v.
+Definition unpack (v : N) : list N := unpack_fuel (S (N.to_nat (N.log2 v))) v.
 
 (* ---- the family of concrete types of the harness (kind-3 scripts) ---- *)
 Definition NFAM : N := 19.
